@@ -8,23 +8,25 @@
 (***************************************************************************)
 EXTENDS Store_L1, Json
 
-CONSTANTS MaxOps, MaxC, Emit
+CONSTANTS MaxOps, MaxC, Emit, Faults     \* Faults: include destructor-panic operations (C19)
 
 L0 == INSTANCE World_L0
 
-VARIABLES st, w, viol, hist
+VARIABLES st, w, viol, hist, ended
 
 IdSeq == SeqOfSet(Ids)
 
 Ops ==
      {[o |-> "get", i |-> i] : i \in Ids}
-  \cup {[o |-> "get_mut", i |-> i, w |-> b] : i \in Ids, b \in BOOLEAN}
-  \cup {[o |-> "insert", i |-> i] : i \in Ids}
-  \cup {[o |-> "remove", i |-> i] : i \in Ids}
+  \cup {[o |-> "get_mut", i |-> i, w |-> b] : i \in Ids \ st.dead, b \in BOOLEAN}
+  \cup {[o |-> "insert", i |-> i] : i \in Ids \ st.dead}
+  \cup {[o |-> "remove", i |-> i] : i \in Ids \ st.dead}
   \cup {[o |-> "clear"], [o |-> "count"]}
   \cup {[o |-> "drain", n |-> n] : n \in {0 - 1, 1}}
   \cup {[o |-> "joinmut", sel |-> x] : x \in {{}, {1}, {2}, {1, 2, 3}}}
   \cup (IF Trk = "none" THEN {} ELSE {[o |-> "setemit", b |-> b] : b \in BOOLEAN})
+  \cup (IF Faults THEN {[o |-> "clear_f", k |-> k] : k \in 1..2} \cup {[o |-> "delete_f", i |-> i] : i \in Ids \ st.dead}
+                       \cup {[o |-> "teardown"]} ELSE {})
 
 RECURSIVE Fold(_, _, _, _)
 Fold(ww, vv, evs, k) ==
@@ -34,23 +36,25 @@ Fold(ww, vv, evs, k) ==
 W1 == L0!Step(L0!W0([S |-> 1, zst |-> <<Kind = "null">>, trk |-> <<Trk>>, tid |-> 0]),
               [op |-> "Prealloc", n |-> MaxId + 1, hs |-> [k \in 1..Len(IdSeq) |-> H(IdSeq[k])]]).w
 
-MCInit == st = Init0 /\ w = W1 /\ viol = {} /\ hist = <<>>
+MCInit == st = Init0 /\ w = W1 /\ viol = {} /\ hist = <<>> /\ ended = FALSE
 
 MCNext ==
-  /\ Len(hist) < MaxOps
+  /\ Len(hist) < MaxOps /\ ~ended
   /\ \E op \in Ops :
-       LET r == Exec(st, op)
+       LET r == IF op.o \in {"clear_f", "delete_f"} THEN ExecFault(st, op)
+                ELSE IF op.o = "teardown" THEN Teardown(st) ELSE Exec(st, op)
            f == Fold(w, viol, r.evs, 1)
        IN /\ st' = r.st
           /\ w' = f.w
           /\ viol' = f.viol
           /\ hist' = Append(hist, op)
+          /\ ended' = (op.o = "teardown")
           /\ (Emit => PrintT(<<"SCRIPT", ToJson(Append(hist, op))>>))
 
-MCSpec == MCInit /\ [][MCNext]_<<st, w, viol, hist>>
+MCSpec == MCInit /\ [][MCNext]_<<st, w, viol, hist, ended>>
 
 Bound == st.ncid <= MaxC /\ st.nval <= 100 + MaxC + 3
-View == <<st, w>>
+View == <<st, w, ended>>
 NoViol == viol = {}
 StructInv == Struct(st)
 =============================================================================
